@@ -10,10 +10,16 @@ PROP_MODULES = ['Dhlldv.Props.C19']
 PROVED = ['A1 + A2 = Ap, A2 = Ap*Cvs/Cvb, Ap = pi (Dp/2)^2; O1 + O2 = Op = pi Dp; O12 = Dp sin(beta); beta is the table lookup at Cvs/Cvb (all Dp, Cvs)',
           'the regenerated 33-row table runs from (0,0) to (1,3.1415927) with strictly increasing keys and values (so, with C18, the lookup is monotone from 0 to 3.1415927); |3.1415927 - pi| < 1e-7',
           'the half-angle the code uses is STRICTLY increasing in the bed concentration for every pair 0 <= c1 < c2 <= Cvb (not only at nodes) and stays within [0, 3.1415927] (monotone-table lemma for the interpolant)',
-          'exact segment fraction (beta - sin beta cos beta)/pi is 0 at 0 and 1 at pi']
+          'exact segment fraction (beta - sin beta cos beta)/pi is 0 at 0 and 1 at pi',
+          'node clause as a theorem about the regenerated table: every one of its rows (A, beta) satisfies |A - (beta - sin beta cos beta)/pi| < 1e-5 '
+          '(C19_node_accuracy: sin 2beta enclosed by 14 terms of its series with Mathlib\'s exponential-series bound, pi by 3.141592 < pi < 3.141593, '
+          'then four inequalities between rationals per row)',
+          'between-nodes clause for EVERY real area fraction in [0, 1], not only the 1e-5 grid: the lookup is defined and the returned half-angle reproduces '
+          'the fraction within 0.0075 (C19_between_nodes, C19_beta_reproduces_area: chord error of the segment function <= (delta beta)^2/(4 pi) by convexity of '
+          'segF +- beta^2/pi, neighbouring rows at most 0.2792527 rad apart)']
 HYPOTHESES = []
-MONITORED = ['node accuracy 1e-5 at the 33 nodes and 0.0075 between nodes: decided numerically in doubles on the finite sets the property names '
-             '(all 33 nodes every run; 1e-4 grid quick / full 1e-5 grid thorough) - not a theorem (no certified sin/cos enclosure)']
+MONITORED = ['the same two accuracy clauses in doubles on the implementation (the theorems are over R): all 33 nodes every run; 1e-4 grid quick / full 1e-5 grid '
+             'thorough - this is also the search for a failing node or grid point when a theorem about the table no longer checks']
 RULE = ('33 table nodes (exhaustive) + grid of Cvs/Cvb in [0,1] (step 1e-4 quick, 1e-5 thorough, exhaustive for that grid) + Dp over E; '
         'non-trivial = distinct grid points strictly between nodes plus the nodes')
 ASSUMPTIONS = ['identities in R; sums of doubles re-associate, measured against 1e-12 relative']
